@@ -333,6 +333,9 @@ func (vc *VC) findLoops() {
 	for i, li := range vc.loops {
 		li.ordinal = i
 		vc.loopAt[li.header] = li
+		if len(vc.inl) > 0 {
+			continue // the contract's loop annotations belong to the function under verification, not to an inlined callee
+		}
 		for _, c := range vc.decl.Clauses {
 			if c.Loop == i {
 				switch c.Kind {
@@ -347,6 +350,9 @@ func (vc *VC) findLoops() {
 		}
 	}
 	for _, c := range vc.decl.Clauses {
+		if len(vc.inl) > 0 {
+			break
+		}
 		if c.Loop >= len(vc.loops) {
 			// a loop annotation without its loop (the body was restructured): invariants are proof hints,
 			// not claims, so the rest of the contract is still checked against the new body
